@@ -74,6 +74,39 @@ pub fn len_text_stub(
     Ok(((&input.0[pos / 8..], pos % 8), s))
 }
 
+/// A *transparent* stand-in for the text decoder (harnesses c13r_*: which bits reach the decoder, for the 20-character fields
+/// whose real decoding exhausts CBMC's memory): character i of the result is 0x21 + the 6-bit value at bit 6i of the requested
+/// range - injective, never trimmed - with the real decoder's end-of-input and capacity rules.  The real decoder itself is the
+/// subject of the c13_* harnesses (all 64^k strings, k <= 8 / 12).
+pub fn raw_text_stub(
+    input: (&[u8], usize),
+    size: usize,
+) -> IResult<(&[u8], usize), AsciiString> {
+    let k = size / 6;
+    let nbits = 6 * k;
+    let rem = input.0.len() * 8 - input.1;
+    if rem < nbits {
+        return Err(nom::Err::Error(nom::error::Error::new(input, ErrorKind::Eof)));
+    }
+    #[cfg(all(not(feature = "std"), not(feature = "alloc")))]
+    if k > 20 {
+        return Err(nom::Err::Failure(nom::error::Error::new(input, ErrorKind::TooLarge)));
+    }
+    let mut s = AsciiString::new();
+    let mut i = 0;
+    while i < k {
+        let v = crate::spec::bits(input.0, input.1 + 6 * i, 6) as u8;
+        let c = (0x21 + v) as char;
+        #[cfg(any(feature = "std", feature = "alloc"))]
+        s.push(c);
+        #[cfg(all(not(feature = "std"), not(feature = "alloc")))]
+        let _ = s.push(c);
+        i += 1;
+    }
+    let pos = input.1 + nbits;
+    Ok(((&input.0[pos / 8..], pos % 8), s))
+}
+
 // ---- identity-encoding stubs of the pub scaling leaves (C10 wiring harnesses).  Each returns the raw
 // argument bit-cast into the f32, tagged so that the four leaves are distinguishable; the wiring harness
 // then proves with integer reasoning only that exactly sign_extend(bits(..)) reaches the right leaf and
